@@ -39,14 +39,32 @@ PARAM_KINDS = {"POSITIONAL_ONLY": "posOnly", "POSITIONAL_OR_KEYWORD": "posOrKw",
                "KEYWORD_ONLY": "kwOnly", "VAR_KEYWORD": "varKw"}
 
 
+_SIG_CACHE = {}
+
+
 def dump_resolver(fn):
     """A resolver callable as data: its `inspect.signature` (None: no resolver)."""
     import inspect
     if not fn:
         return None
+    hit = _SIG_CACHE.get(id(fn))
+    if hit is not None and hit[0] is fn:
+        return copy_sig(hit[1])
+    out = _dump_resolver(fn)
+    if len(_SIG_CACHE) < 200000:
+        _SIG_CACHE[id(fn)] = (fn, out)       # the object is kept alive, so the id cannot be reused
+    return copy_sig(out)
+
+
+def copy_sig(r):
+    return {"uninspectable": r["uninspectable"], "params": [dict(p) for p in r["params"]]}
+
+
+def _dump_resolver(fn):
+    import inspect
     try:
         sig = inspect.signature(fn)
-    except ValueError:
+    except (ValueError, TypeError):      # TypeError: not a callable at all
         return {"uninspectable": True, "params": []}
     return {"uninspectable": False,
             "params": [{"name": p.name, "kind": PARAM_KINDS[p.kind.name], "has_default": p.default is not inspect.Parameter.empty}
@@ -73,6 +91,7 @@ def dump_field(f, resolvers=False):
     }
     if resolvers:
         d["resolver"] = dump_resolver(f.resolver)
+        d["subscription_resolver"] = dump_resolver(getattr(f, "subscription_resolver", None))
         for a, da in zip(f.arguments, d["args"]):
             da["python_name"] = a.python_name
     return d
